@@ -225,6 +225,7 @@ type webRec struct {
 	ctrlSvc       *webScoped
 	methodRan     int
 	errHandler    int
+	errHandlerSeq int
 	closeErrH     int
 	scopeErrH     int
 	resErrH       int
@@ -382,6 +383,10 @@ func (r *webRun) mwBody(i int, scope godi.Scope) error {
 	}
 	rec.mwSeen = append(rec.mwSeen, scope)
 	rec.mwOrder = append(rec.mwOrder, i)
+	if i == 0 && scope != nil {
+		// a middleware that uses the request's scope (authentication, tenant lookup ...)
+		godi.Resolve[*webScoped](scope)
+	}
 	simrt.Yield(siteMiddleware)
 	if rec.req.Exit == exitMwError && rec.req.MwFailAt == i {
 		return errMw
@@ -428,6 +433,7 @@ func (r *webRun) stdParts(isChi bool) (scopeMw func(http.Handler) http.Handler, 
 	errH := func(w http.ResponseWriter, rq *http.Request, err error) {
 		if rec := r.rec(); rec != nil {
 			rec.errHandler++
+			rec.errHandlerSeq = r.tick()
 		}
 		w.WriteHeader(599)
 	}
@@ -598,6 +604,7 @@ func (r *webRun) newGinApp() webApp {
 		opts = append(opts, godigin.WithErrorHandler(func(g *gin.Context, err error) {
 			if rec := r.rec(); rec != nil {
 				rec.errHandler++
+				rec.errHandlerSeq = r.tick()
 			}
 			g.Status(599) // only writes a response
 		}))
@@ -698,6 +705,7 @@ func (r *webRun) newEchoApp() webApp {
 		opts = append(opts, godiecho.WithErrorHandler(func(ec echo.Context, err error) error {
 			if rec := r.rec(); rec != nil {
 				rec.errHandler++
+				rec.errHandlerSeq = r.tick()
 			}
 			return ec.NoContent(599)
 		}))
@@ -831,6 +839,7 @@ func (r *webRun) newFiberApp() webApp {
 		opts = append(opts, godifiber.WithErrorHandler(func(fc *fiber.Ctx, err error) error {
 			if rec := r.rec(); rec != nil {
 				rec.errHandler++
+				rec.errHandlerSeq = r.tick()
 			}
 			return fc.SendStatus(599)
 		}))
@@ -1130,6 +1139,14 @@ func (r *webRun) judge(add func(rule, shape, f string, a ...any), out *RunOut) {
 			add("C16.isolated", "instance-changed", "%s: two resolutions in one request returned different scoped instances (#%d, #%d)", name, rec.handlerInst.id, rec.handlerInst2.id)
 		}
 		// C16.closed
+		if rec.errHandlerSeq > 0 && rq.Exit == exitMwError {
+			// the scope lives until the request ends: the error handler still sees it open
+			for _, in := range rec.insts {
+				if in.closed > 0 && in.closeSeq < rec.errHandlerSeq {
+					add("C16.closed", "before-error-handler", "%s: scoped instance #%d was closed (seq %d) before the error handler ran (seq %d)", name, in.id, in.closeSeq, rec.errHandlerSeq)
+				}
+			}
+		}
 		if rq.Exit != exitClientCancel && rq.Exit != exitCancelEarly && rec.handlerEndSeq > 0 {
 			// nobody but the request itself (its middleware, when the request ends) closes the request's scope
 			for _, in := range rec.insts {
@@ -1152,7 +1169,7 @@ func (r *webRun) judge(add func(rule, shape, f string, a ...any), out *RunOut) {
 		if c.CloseErr && c.CustomClose && len(rec.insts) > 0 && rec.closeErrH != 1 && rq.Exit != exitClientCancel && rq.Exit != exitCancelEarly && rq.Exit != exitScopeCreateFail {
 			// the close error is reported to the configured handler exactly once (by whoever closed the scope;
 			// on client-cancel the watcher may be the one, and it has nowhere to report to)
-			if !(c.Framework == 4 && (rq.Exit == exitMwError || rq.Exit == exitHandlerPanic)) {
+			if !(c.Framework == 4 && rq.Exit == exitHandlerPanic) {
 				add("C16.closed", "close-error-handler", "%s: a scoped Close failed but the close-error handler ran %d times", name, rec.closeErrH)
 			}
 		}
